@@ -4,7 +4,8 @@ import re
 from vlib.engine import Prop, Failure, run_side
 
 WRAP = ["-Wl,--wrap=pthread_mutex_lock", "-Wl,--wrap=pthread_mutex_unlock", "-Wl,--wrap=pthread_cond_wait",
-        "-Wl,--wrap=pthread_cond_signal", "-Wl,--wrap=pthread_cond_broadcast"]
+        "-Wl,--wrap=pthread_cond_signal", "-Wl,--wrap=pthread_cond_broadcast",
+        "-Wl,--wrap=esl_sqio_Read"]      # records reaching esl_dsqdata_Write get an accession and a taxonomy id
 
 
 # ---- a python mirror of the packers, used ONLY to build inputs (valid packet streams) and to state monitors ----
@@ -37,6 +38,28 @@ def pack2(d):
         if r >= n: v |= 1 << 31
         out.append(v & 0xffffffff)
     return out or [0xffffffff]
+
+
+def le(n, k):
+    return [(n >> (8 * i)) & 0xff for i in range(k)]
+
+
+def dsq_files(tag, alphatype, recs, amino):
+    """independent re-statement of the documented dsqdata layout (header fields, index records, metadata, packets)"""
+    magic = 0xc4d3d1b1
+    idx = le(magic, 4) + le(tag, 4) + le(alphatype, 4) + le(0, 4)
+    idx += le(max([len(r[0]) for r in recs] + [0]), 4) + le(max([len(r[1]) for r in recs] + [0]), 4) + le(max([len(r[2]) for r in recs] + [0]), 4)
+    idx += le(max([len(r[4]) for r in recs] + [0]), 8) + le(len(recs), 8) + le(sum(len(r[4]) for r in recs), 8)
+    md, sq = le(magic, 4) + le(tag, 4), le(magic, 4) + le(tag, 4)
+    spos = mpos = 0
+    for name, acc, desc, tax, d in recs:
+        p = pack5(d) if amino else pack2(d)
+        for w in p: sq += le(w, 4)
+        m = list(name) + [0] + list(acc) + [0] + list(desc) + [0] + le(tax & 0xffffffff, 4)
+        md += m
+        spos += len(p); mpos += len(m)
+        idx += le((mpos - 1) & (2**64 - 1), 8) + le((spos - 1) & (2**64 - 1), 8)
+    return idx, md, sq
 
 
 def hx(bs):
@@ -77,7 +100,9 @@ class C12(Prop):
         "wq_reset_while_pending_loses_wakeup", "wq_unrepaired_remove_loses_block",
         "codec_unpack5_pack5", "codec_unpack2_pack2", "codec_unpack2_pack5", "codec_packet_count", "codec_eod_last",
         "codec_unpack_chunk", "codec_pack_in_place", "codec_unpack_in_place", "codec_metadata_round_trip", "th_barrier", "th_counter", "th_no_lost_wakeup_master", "th_progress",
-        "loader_nload_largest_prefix", "loader_chunks_partition", "dsq_chunks_are_the_database", "pipe_order", "pipe_eof_after_all", "pipe_lanes", "pipe_no_deadlock", "pipe_no_lost_wakeup", "pipe_eof_delivered", "pipe_buffers")]
+        "loader_nload_largest_prefix", "loader_chunks_partition", "dsq_chunks_are_the_database", "pipe_order", "pipe_eof_after_all", "pipe_lanes", "pipe_no_deadlock", "pipe_no_lost_wakeup", "pipe_eof_delivered", "pipe_buffers",
+        "dsq_open_written", "dsq_bytes_round_trip", "dsq_bytes_round_trip_defaults", "dsq_open_corrupt_header", "dsq_stub_tag",
+        "dsq_threaded_read_is_database")]
     claimed = True
     level_text = ("Theorems for every schedule of one reader and any number of workers (one atomic step per mutex-protected region, spurious wake-ups allowed): "
                   "conservation and exclusivity of blocks, FIFO on both queues (history variables), counters in range and pendingWorkers = number of sleepers, "
@@ -387,12 +412,59 @@ class C12(Prop):
             for nm, L in (("dsq-maxlen-accepted", 6 * 262144 - 1),):
                 seqs = [[3, 1, 4], [rng.randrange(20) for _ in range(L)], [7] * 10]
                 out.append(self.dsq_case(nm, "amino", seqs, 0, 0, 0, 2, 11, 0, rng))
+
+        # --- the on-disk format at byte level: files written by the real esl_dsqdata_Write compared byte for byte with the
+        #     model's; esl_dsqdata_Open on files with one mutated header byte / truncated
+        TAX = [-1, 0, 1, 9606, 127, 128, 255, 256, 0x80, 0x8000, 0x800000, 0x7fffffff, -0x80000000, 0x00ff00ff, 0x12345678, -2, 0x7f80ff01]
+        def byte_db(nmax, lmax):
+            amino = rng.random() < 0.45
+            abc = "amino" if amino else rng.choice(["dna", "rna"])
+            nseq = rng.choice([1, 1, 2, 3, 5, rng.randrange(1, nmax + 1)])
+            seqs = [self.rand_dsq(rng, amino, lmax) for _ in range(nseq)]
+            c = self.dsq_case("x", abc, seqs, 0, 0, 0, 1, 1, 0, rng)
+            a = kv(c["ops"][0])
+            accs = [("" if rng.random() < 0.3 else "".join(rng.choice("ABCXYZ0123456789._") for _ in range(rng.randrange(1, 12)))).encode() for _ in seqs]
+            tax = [rng.choice(TAX + [rng.randrange(-2**31, 2**31)]) for _ in seqs]
+            lst = lambda xs: ",".join("x" + "".join("%02x" % b for b in x) for x in xs) if xs else "-"
+            return "abc=%s names=%s descs=%s dsq=%s accs=%s taxids=%s" % (abc, a["names"], a["descs"], a["dsq"], lst(accs), ",".join(map(str, tax))), abc, nseq
+        for c in range(50 if quick else 600):
+            body, abc, nseq = byte_db(12 if quick else 80, 100 if quick else 600)
+            out.append({"name": "dsqwrite%d" % c, "ops": ["dsqwrite " + body]})
+            stats["dsqwrite"] = stats.get("dsqwrite", 0) + 1
+        for c in range(110 if quick else 1200):
+            body, abc, nseq = byte_db(8, 60)
+            t = {"amino": 3, "dna": 2, "rna": 1}[abc]
+            expect = rng.choice(["none", "none", abc, abc, rng.choice(["amino", "dna", "rna"])])
+            kind = rng.choice(["none", "magic", "tag", "alphatype", "idxhdr", "stub1", "stub", "trunc", "trunc", "two"])
+            def one(kind):
+                f = rng.choice(["dsqi", "dsqm", "dsqs"])
+                if kind == "magic": return "%s:%d:%d" % (f, rng.randrange(0, 4), rng.choice([1, 2, 4, 8, 16, 32, 64, 128, 255, rng.randrange(1, 256)]))
+                if kind == "tag": return "%s:%d:%d" % (f, rng.randrange(4, 8), rng.choice([1, 128, 255, rng.randrange(1, 256)]))
+                if kind == "alphatype":
+                    off = rng.randrange(8, 12)
+                    m = rng.randrange(1, 256)
+                    while off == 8 and (t ^ m) == 6: m = rng.randrange(1, 256)       # eslNONSTANDARD: esl_alphabet_Create() aborts by design
+                    if rng.random() < 0.5 and off == 8: m = rng.choice([x for x in (1, 2, 3, 4, 5, 6, 7) if (t ^ x) != 6])
+                    return "dsqi:%d:%d" % (off, m)
+                if kind == "idxhdr": return "dsqi:%d:%d" % (rng.randrange(12, 52), rng.randrange(1, 256))
+                if kind == "stub1": return "stub:%d:%d" % (rng.randrange(0, 30), rng.choice([1, 2, 16, 32, 0x80, rng.randrange(1, 256)]))
+                if kind == "stub": return "stub:%d:%d" % (rng.randrange(0, 200), rng.randrange(1, 256))
+                if kind == "trunc":
+                    f = rng.choice(["dsqi", "dsqm", "dsqs", "stub"])
+                    lim = {"dsqi": 52 + 16 * nseq, "dsqm": 7, "dsqs": 7, "stub": 40}[f]     # data files cut inside the header only: a loader that runs out of data is fatal by design
+                    return "%s:trunc:%d" % (f, rng.choice([0, 1, 3, 4, 7, rng.randrange(0, lim + 1)]) if f != "dsqi" else rng.choice([0, 4, 8, 51, 52, 52 + 16 * rng.randrange(0, nseq + 1), rng.randrange(0, lim + 1)]))
+                return "-"
+            mut = one(kind) if kind != "two" else one(rng.choice(["magic", "tag", "stub1"])) + "," + one(rng.choice(["magic", "tag", "idxhdr", "trunc"]))
+            lim = "maxseq=%d maxpacket=%d unpackers=%d" % (rng.choice([0, 1, 2, 3]), rng.choice([0, 0, 11, 40]), rng.randrange(0, 5))
+            out.append({"name": "dsqopen%d" % c, "ops": ["dsqopen %s expect=%s mut=%s %s" % (body, expect, mut, lim)]})
+            stats["dsqopen"] = stats.get("dsqopen", 0) + 1
         rng.shuffle(out)
         return out
 
     # ------------------------------------------------------------------ comparison
     def canonical(self, line):
         if line.startswith("fault "): return "fault"
+        if " tag=" in line and line.startswith(("ok stub=", "open-")): return "ok deferred"      # compared in compare(), once the random uniquetag is known
         i = line.find(" trace=")
         return line[:i] if i >= 0 else line
 
@@ -418,6 +490,15 @@ class C12(Prop):
             return d
         # trace validation: the logged run must be a path of the model and satisfy the invariants at every step
         for i, (op, l) in enumerate(zip(case["ops"], impl_out)):
+            if op.startswith(("dsqwrite ", "dsqopen ")) and " tag=" in l:
+                # the uniquetag is random and the stub names the sequence file: ask the model for the same tag / name, compare exactly
+                j = l.find(" tag=")
+                t = kv(l[j:])
+                res = self.validate(ctx, op + " tag=%s fname=%s" % (t["tag"], t["fname"]))
+                ctx.stats["bytes_compared"] = ctx.stats.get("bytes_compared", 0) + (len(l[:j]) // 2 if op.startswith("dsqwrite") else 0)
+                if res != l[:j]:
+                    k = next((x for x in range(min(len(res), j)) if res[x] != l[x]), min(len(res), j))
+                    return (i, "…" + l[max(0, k - 60):k + 80], "…" + res[max(0, k - 60):k + 80])
             if op.startswith("wqrun ") and " trace=" in l:
                 tr = l[l.find(" trace=") + 7:]
                 res = [self.validate(ctx, "wqtrace size=%s ev=%s" % (kv(op)["size"], tr))]
@@ -496,6 +577,31 @@ class C12(Prop):
                 want = "ok workers=%s rounds=%s idx=ok early=0" % (a["workers"], a["rounds"])
                 if self.canonical(l) != want:
                     return Failure("monitor", "start rendezvous: a worker passed the gate early / worker indices not a bijection / did not finish: got %r" % self.canonical(l)[:200])
+            elif w[0] == "dsqwrite" and l.startswith("ok stub="):
+                r = kv(l)
+                unx = lambda x: list(bytes.fromhex(x[1:]))
+                lst = lambda k: [unx(x) for x in a[k].split(",")] if a[k] != "-" else []
+                names, accs, descs, ds = lst("names"), lst("accs"), lst("descs"), lst("dsq")
+                tax = [int(x) for x in a["taxids"].split(",")]
+                amino = a["abc"] == "amino"
+                idx, md, sq = dsq_files(int(r["tag"]), {"amino": 3, "dna": 2, "rna": 1}[a["abc"]], list(zip(names, accs, descs, tax, ds)), amino)
+                for nm, want in (("dsqi", idx), ("dsqm", md), ("dsqs", sq)):
+                    if r[nm] != hx(want):
+                        return Failure("monitor", "esl_dsqdata_Write: file %s differs from the documented layout (python oracle): got %s… want %s…" % (nm, r[nm][:120], hx(want)[:120]))
+                first = bytes.fromhex(r["stub"]).split(b"\n")[0]
+                if first != b"Easel dsqdata v1 x%d" % int(r["tag"]):
+                    return Failure("monitor", "stub tag line %r does not carry the tag %s of the data files" % (first, r["tag"]))
+            elif w[0] == "dsqopen":
+                if l.startswith(("fault", "atexit")):
+                    return Failure("fault", "esl_dsqdata_Open / read of a mutated database died: %s" % l[:200])
+                muts = [m.split(":") for m in a["mut"].split(",")] if a["mut"] != "-" else []
+                nseq = a["dsq"].count(",") + 1
+                if not muts and (a["expect"] in ("none", a["abc"])):
+                    if not l.startswith("open-ok ") or kv(l).get("nseq") != str(nseq):
+                        return Failure("monitor", "Open/read of an intact database failed: %r" % l[:200])
+                if any(m[0] != "stub" and m[1] != "trunc" and int(m[1]) < 8 for m in muts) or any(m[0] != "stub" and m[1] == "trunc" and int(m[2]) < 8 for m in muts):
+                    if not l.startswith("open-eformat "):
+                        return Failure("monitor", "a corrupted / missing magic or tag was not answered eslEFORMAT: mut=%s -> %r" % (a["mut"], l[:200]))
             elif w[0] == "dsqrt":
                 if l.startswith(("fault", "atexit")):
                     return Failure("fault", "threaded read-back died: %s" % l[:200])
@@ -525,7 +631,8 @@ class C12(Prop):
         return None
 
     def extra_evidence(self, ctx):
-        return {"input_distribution": ctx.stats.get("inputs", {}), "trace_steps_validated": ctx.stats.get("trace_steps_validated", 0)}
+        return {"input_distribution": ctx.stats.get("inputs", {}), "trace_steps_validated": ctx.stats.get("trace_steps_validated", 0),
+                "file_bytes_compared_exactly": ctx.stats.get("bytes_compared", 0)}
 
 
 SPEC = C12()
